@@ -40,6 +40,7 @@ fn weight(c: &Choice, bias: &Bias) -> f64 {
         Choice::Schedule => 4.0 * bias.schedule,
         Choice::Exit { ok: true, .. } => 2.0 * bias.exit,
         Choice::Exit { ok: false, .. } => 0.7,
+        Choice::Die { .. } => 1.2,
         Choice::Submit { .. } => 1.5 * bias.submit,
         Choice::Open => 1.0,
         Choice::Close { .. } => 0.5,
